@@ -182,6 +182,14 @@ int verif_sha256_path(void);
 int verif_crc32c_path(void);
 int verif_aes_path(void);
 int verif_aesctr_path(void);
+/*
+ * The library's own one-vector self-tests, asked again through the shims with hwaccel_init()'s arguments:
+ * 0 passes, 1 FAILS (a run-time fallback to a slower path is then the library's documented behaviour), -1 not compiled in.
+ * Call only for features the forced cpusupport flags report (the instructions are executed).
+ */
+int verif_sha256_selftest(int which /* 1 SHA-NI, 2 SSE2 */);
+int verif_crc32c_selftest(void);
+int verif_aes_selftest(void);
 
 /* A trace of small integers as a JSON array. */
 static inline char *
